@@ -21,9 +21,9 @@ RULE = ("accuracy/precision/recall/F-beta(1/2,1,2) on all pairs of binary vector
         "target pairs over -2..2 (length <=2/3 all, 3/4 sampled); ROC-AUC on every (label, score in 0..2) vector of length "
         "<=4/6 enumerated by TLC; homogeneity/completeness/V on all labelling pairs over 3 labels of length <=4/5 each with "
         "swap and injective relabelling; plus seeded random inputs of length <=200 (class balances down to a single "
-        "positive/negative, tied/constant/continuous scores, targets (a/U+off)*2^e incl. the offset family off=2^30,1e9 (f64) / 2^15,5e4 (f32), 1..8(16) clusters with arbitrary labels, "
+        "positive/negative, tied/constant/continuous scores, scores k*2^e (e=-70..40) and neighbouring floats 2^e+k ulps, targets (a/U+off)*2^e incl. the offset family off=2^30,1e9 (f64) / 2^15,5e4 (f32), 1..8(16) clusters with arbitrary labels, "
         "product/identical/dyadic layouts, length mismatches) and quick_argsort vectors. An evaluation is non-trivial "
-        "when it is an AUC call with tied scores, or a binary metric with a single positive or negative, or a regression "
+        "when it is an AUC call with tied, rescaled or neighbouring-float scores, or a binary metric with a single positive or negative, or a regression "
         "call with non-integer, rescaled or offset targets, or a clustering call with a single-class labelling or a mixed dyadic "
         "table or an exactly independent pair; distinct = distinct (metric, type, a, b, beta, U, e) digests")
 
@@ -32,7 +32,7 @@ KEY_SINGLE_CLUSTER = "hcv: labels_pred has a single cluster -> completeness is n
 
 TRACE_SPEC = ("metrics/MetricsTrace.tla", "metrics/MetricsTrace.cfg")
 MUST_HIT = ("accuracy", "precision", "recall", "fbeta", "auc", "mse", "mae", "r2", "LengthMismatch", "Unconstrained",
-            "AucTies", "AucConstant", "SinglePosOrNeg", "Scaled", "Offset", "Expect", "HCV", "HcvSingleClass", "HcvPure", "HcvMixed",
+            "AucTies", "AucConstant", "SinglePosOrNeg", "Scaled", "Offset", "AucScaled", "AucNeighbours", "AucCloserThanEps", "R2ScaledFar", "Expect", "HCV", "HcvSingleClass", "HcvPure", "HcvMixed",
             "HcvDyadic", "HcvDyadicMixed", "HcvIndependent", "HcvIdentical", "ArgSort", "ArgSortLong")
 
 
@@ -57,7 +57,8 @@ def key_of(e, clause):
         n = len(e["a"])
         extra = ""
         if e["name"] == "auc":
-            extra = " ties=%s pos=%d" % (len(set(e["b"])) < len(e["b"]), sum(1 for v in e["a"] if v == 1))
+            extra = " ties=%s pos=%d scores=%s" % (len(set(e["b"])) < len(e["b"]), sum(1 for v in e["a"] if v == 1),
+                                                    e.get("fam", "plain") + ("" if e.get("fam", "plain") == "plain" else " 2^%d" % e["e"]))
         elif e["name"] in ("precision", "recall", "fbeta"):
             extra = " pos=%d predpos=%d beta=%d/%d" % (sum(e["a"]), sum(e["b"]), e["b1"], e["b2"])
         elif e["name"] in ("mse", "mae", "r2"):
@@ -75,7 +76,7 @@ def nontrivial(e):
         if len(e["a"]) != len(e["b"]) or e["status"] != "ok":
             return False
         if e["name"] == "auc":
-            return len(set(e["b"])) < len(e["b"])
+            return len(set(e["b"])) < len(e["b"]) or e.get("fam", "plain") != "plain"
         if e["name"] in ("precision", "recall", "fbeta"):
             s = sum(e["a"])
             return len(e["a"]) > 2 and (s == 1 or s == len(e["a"]) - 1)
@@ -125,7 +126,7 @@ def run(ctx):
     for e in events:
         if nontrivial(e):
             nt.add(vlib.digest([e.get("name", e["ev"]), e.get("ty"), e.get("a", e.get("x")), e.get("b"), e.get("b1"), e.get("b2"),
-                                e.get("U"), e.get("e"), e.get("off")]))
+                                e.get("U"), e.get("e"), e.get("off"), e.get("fam")]))
     ctx.evaluations = len(events)
     ctx.traces = len(events) + nsort
     ctx.extra["skipped_out_of_range"] = skipped
